@@ -18,7 +18,7 @@ ROOT = os.path.dirname(os.path.dirname(os.path.abspath(__file__)))
 COQ = os.path.join(ROOT, "coq")
 CACHE = os.path.join(ROOT, ".cache")
 CASES = os.path.join(COQ, "cases")
-REPO = "/repo"
+REPO = os.environ.get("VERIF_REPO", "/repo")  # the registered commands never set VERIF_REPO; tools/seedpar.py does
 EVID = os.path.join(ROOT, "evidence")
 REPLAYS = os.path.join(ROOT, "replays")
 HARNESS_BIN = os.path.join(CACHE, "harness")
@@ -290,8 +290,16 @@ def build_harness(race=False):
     if os.path.exists(binp) and os.path.exists(stamp) and open(stamp).read() == th:
         return True, "cached", binp
     hdir = os.path.join(ROOT, "harness")
-    shutil.copyfile(os.path.join(REPO, "go.sum"), os.path.join(hdir, "go.sum"))
     cmd = ["go", "build", "-tags", "verif"]
+    if REPO == "/repo":
+        shutil.copyfile(os.path.join(REPO, "go.sum"), os.path.join(hdir, "go.sum"))
+    else:
+        # a scratch tree (seeded-change runs in an isolated copy): same module file with the replace re-pointed
+        alt = os.path.join(CACHE, "alt.mod")
+        with open(alt, "w") as f:
+            f.write(open(os.path.join(hdir, "go.mod")).read().replace("=> /repo", "=> " + REPO))
+        shutil.copyfile(os.path.join(REPO, "go.sum"), os.path.join(CACHE, "alt.sum"))
+        cmd.append("-modfile=" + alt)
     env = go_env()
     if race:
         cmd.append("-race")
